@@ -164,6 +164,46 @@ impl Scenario for Nogood {
             };
             return NogoodCase { spec, build: if rng.chance(1, 3) { Build::Bridged } else { Build::Native }, heu, entry, chan: Chan::Unbounded, adf_outlives_consumer: rng.chance(1, 2) };
         }
+        if rng.chance(1, if thorough { 1500 } else { 3000 }) {
+            // many statements, sparse: a small random ADF (2-4 statements) embedded into 66-130
+            // facts, preferably at positions that are congruent modulo 64 (or 32, 128) - whatever
+            // is keyed by a machine-word bit set of statements cannot tell them apart
+            let n = *rng.pick(&[66usize, 70, 72, 130]);
+            let k = rng.range(2, 4) as usize;
+            let depth = rng.range(1, 2) as u32;
+            let small = AdfSpec::gen(rng, k, depth, "s");
+            let base = rng.below((n - 64) as u64) as usize;
+            let mut positions = vec![base, base + 64];
+            while positions.len() < k {
+                let p = match rng.below(3) {
+                    0 if base + 32 < n => base + 32,
+                    1 if n > 128 && base + 128 < n => base + 128,
+                    _ => rng.below(n as u64) as usize,
+                };
+                if !positions.contains(&p) {
+                    positions.push(p);
+                }
+            }
+            if rng.chance(1, 2) {
+                positions.reverse();
+            }
+            let salt = rng.below(7) as usize;
+            let spec = refsem::Sparse::embed(&small, &positions, n, &|i| (i * 5 + salt) % 3 != 0);
+            let heu = match rng.below(5) {
+                0 => Heu::Simple,
+                1 => Heu::Rand(rng.bytes32()),
+                2 => Heu::MinModMaxVarImpMinPaths,
+                3 => Heu::MinModMinPathsMaxVarImp,
+                _ => Heu::Adversary,
+            };
+            let entry = match rng.below(4) {
+                0 => Entry::Iterator,
+                1 => Entry::StableChannel,
+                2 => Entry::TwoValChannel,
+                _ => Entry::TwoCalls,
+            };
+            return NogoodCase { spec, build: if rng.chance(1, 4) { Build::Bridged } else { Build::Native }, heu, entry, chan: Chan::Unbounded, adf_outlives_consumer: rng.chance(1, 2) };
+        }
         if rng.chance(1, if thorough { 3000 } else { 12000 }) {
             // many models: k independent even loops a_i = neg(b_i), b_i = neg(a_i) have 2^k
             // stable models (= two-valued models); more than 128 from k = 8
@@ -262,12 +302,23 @@ impl Scenario for Nogood {
                 _ => false,
             });
         let even_loops = !facts_family && n > 7 && n % 2 == 0 && case.spec.acs.iter().enumerate().all(|(i, f)| *f == refsem::F::Not(Box::new(refsem::F::Atom(i ^ 1))));
-        if n > 7 && !facts_family && !even_loops && !self_support {
+        // mostly facts, at most six other statements: the definitional answers are those of the
+        // small ADF obtained by substituting the facts, extended by the facts
+        let sparse = if n > 7 && !facts_family && !even_loops && !self_support { refsem::Sparse::of(&case.spec, 6) } else { None };
+        if n > 7 && !facts_family && !even_loops && !self_support && sparse.is_none() {
             // a large instance outside the families with closed-form answers (can only come from
             // a shrinking candidate): there is no oracle for it, so it shows nothing
             return RunResult { violation: None, decisions: dec.values(), signature: 0, log_hash: 0, nontrivial: false, stats };
         }
-        let (want_stable, want_two, grounded_has_und) = if facts_family {
+        let (want_stable, want_two, grounded_has_und) = if let Some(sp) = &sparse {
+            stats.inc("runs_sparse_large_family");
+            let sem = Sem::new(&sp.small);
+            (
+                sem.stable().iter().map(|m| sp.extend(&case.spec, m)).collect(),
+                sem.two_valued_models().iter().map(|m| sp.extend(&case.spec, m)).collect(),
+                sem.grounded().iter().any(|v| *v == V::U),
+            )
+        } else if facts_family {
             // closed form: facts are what they say; of each even loop exactly one member is true
             let is_loop = |i: usize| matches!(case.spec.acs[i], refsem::F::Not(_));
             let loops: Vec<usize> = (0..n).filter(|i| is_loop(*i) && i % 2 == 0).collect();
